@@ -229,7 +229,7 @@ def unequal_part():
 DIMS = [
     ("relation", ["full", "trans_part", "rot_part", "angle_deg", "angle_rad",
                   "point_distance", "point_distance_error_ratio"]),
-    ("delta", [("f", 1), ("f", 2), ("m", 1.5), ("d", 40.0), ("r", 0.5)]),
+    ("delta", [("f", 1), ("f", 2), ("m", 1.5), ("d", 37.0), ("r", 0.5)]),
     ("all_pairs", [False, True]),
     ("from_ref", [False, True]),
     ("align", ["none", "a", "s", "as", "origin", "s+origin"]),
@@ -251,8 +251,16 @@ def predict(pt):
     ref, est = arc.processed_pair(pt)
     Pr, Pe = ref.poses(), est.poses()
     unit_d, delta = pt["delta"]
-    pairs = select(Pr if pt["from_ref"] else Pe, delta, unit_d, 0.1,
-                   pt["all_pairs"])
+    src = Pr if pt["from_ref"] else Pe
+    pairs = select(src, delta, unit_d, 0.1, pt["all_pairs"])
+    if unit_d != "f":
+        # knife-edge guard: the model's poses and evo's internally processed
+        # poses differ by rounding; if the selection flips under a relative
+        # change of 1e-9 of delta, the property leaves the choice open
+        lo = select(src, delta * (1 - 1e-9), unit_d, 0.1, pt["all_pairs"])
+        hi = select(src, delta * (1 + 1e-9), unit_d, 0.1, pt["all_pairs"])
+        if lo != pairs or hi != pairs:
+            raise pl.Ambiguous("pair selection on a knife-edge")
     if pairs is None:
         raise pl.Refusal("no-pairs")
     vals, ends = [], []
